@@ -178,9 +178,9 @@ theorem Pair.abort {s u : Engine} {g : Graph} (h : Pair s u g) (ops : List TxOp)
 
 /-- a compaction from a safe state -/
 theorem Pair.compact {s u : Engine} {g : Graph} (h : Pair s u g)
-    (hs : compactSafe s = true) : Pair (s.compact Cfg.current) u g := by
+    (hs : compactSafe Cfg.current s = true) : Pair (s.compact Cfg.current) u g := by
   obtain ⟨hR, hQ⟩ := Rec.compact Cfg.current h.recv h.quiet h.base
-  refine ⟨compact_eqv Cfg.current (by decide) h.eqv hs, h.sim, hR, hQ, h.segs.compact Cfg.current, ?_⟩
+  refine ⟨compact_eqv Cfg.current (by decide) (by decide) h.eqv hs, h.sim, hR, hQ, h.segs.compact Cfg.current, ?_⟩
   have : (s.compact Cfg.current).idmap = s.idmap := by unfold Engine.compact; split <;> rfl
   rw [this]; exact h.base
 
@@ -258,7 +258,7 @@ theorem Pair.close {s u : Engine} {g : Graph} (h : Pair s u g) :
 def ckptHistSafe (c : Cfg) : Engine → List Op → Bool
   | _, [] => true
   | s, .tx ops b :: h => txNoLabelOps ops && removalsClear (runTx c s ops b) && ckptHistSafe c (runTx c s ops b) h
-  | s, .compact :: h => compactSafe s && ckptHistSafe c (s.compact c) h
+  | s, .compact :: h => compactSafe c s && ckptHistSafe c (s.compact c) h
   | s, .reopen :: h => match s.reopen with
     | .ok s' => ckptHistSafe c s' h
     | .error _ => false
